@@ -71,7 +71,7 @@ def build_map(suite, info):
                 return None     # documented: surjectivity only for unary mappings
             return {"force_raised": type(e).__name__}
         n = len(f)
-        if kind == 2 and info["n"] == 1 and n <= 13 and which in (0, 1, 3, 4):
+        if kind == 2 and info["n"] == 1 and n <= 14 and which in (0, 1, 3, 4):
             return single_element(F, f, info["m"], which, opb)
         if n > 13:
             return None
@@ -132,17 +132,57 @@ def build_map(suite, info):
 
 def single_element(F, f, m, which, opb):
     """binary mapping with ONE domain element: the added constraints must accept exactly the bit strings that encode
-    0..m-1 (complete) resp. all of them (functional / injective / nondecreasing say nothing about a single element)"""
+    0..m-1 (complete) resp. all of them (functional / injective / nondecreasing say nothing about a single element).
+    Clauses (and PB constraints of the form sum of literals >= 1) are evaluated by marking the bit strings they
+    exclude; anything else by plain evaluation."""
     bits = f.bits()
     ids = [f(1, b) for b in range(bits)]
+    pos = {v: b for b, v in enumerate(ids)}
     cs = [list(c) for c in (F if opb else F.clauses())]
+    accepted = bytearray(b"\x01") * (1 << bits)
+    slow = []
+    work = 0
+    for c in cs:
+        if opb:
+            if not (c[-2] == ">=" and c[-1] == 1 and all(coef == 1 for coef, _ in c[:-2])):
+                slow.append(c)
+                continue
+            lits = [l for _, l in c[:-2]]
+        else:
+            lits = c
+        if any(abs(l) not in pos for l in lits):
+            slow.append(c)
+            continue
+        need = {}           # bit -> value that makes every literal of the clause false
+        taut = False
+        for l in lits:
+            b, val = pos[abs(l)], (0 if l > 0 else 1)
+            if need.setdefault(b, val) != val:
+                taut = True
+        if taut:
+            continue
+        base = sum(v << b for b, v in need.items())
+        free = [b for b in range(bits) if b not in need]
+        work += 1 << len(free)
+        if work > 4000000:
+            return None                   # not a size this oracle can afford (never the case for the code's encodings)
+        for sub in range(1 << len(free)):
+            x = base
+            for i, b in enumerate(free):
+                if (sub >> i) & 1:
+                    x |= 1 << b
+            accepted[x] = 0
+    if slow and bits > 10:
+        return None
     holds = common.opb_holds if opb else common.cnf_holds
     for val in range(1 << bits):
-        alpha = Alpha()
-        for b in range(bits):
-            alpha[ids[b]] = bool((val >> b) & 1)
+        got = bool(accepted[val])
+        if got and slow:
+            alpha = Alpha()
+            for b in range(bits):
+                alpha[ids[b]] = bool((val >> b) & 1)
+            got = holds(slow, alpha)
         want = (val < m) if which == 0 else True
-        got = holds(cs, alpha)
         if got != want:
             return {"range_size": m, "bits": bits, "element_mapped_to": val, "formula_accepts": got,
                     "functional_condition": want, "number_of_constraints": len(cs)}
